@@ -10,6 +10,7 @@ import (
 	"github.com/advancedclimatesystems/gonnx"
 	"gorgonia.org/tensor"
 
+	"verif/harness/gen"
 	"verif/harness/mon"
 	"verif/harness/ref"
 )
@@ -205,6 +206,11 @@ func c01Run(c *Ctx) {
 	// (3) fault injection
 	if ok {
 		c01Inject(c, p, g)
+	}
+	// (5) entries of the caller's map that are named like values the graph computes (a stale
+	// result map merged into the feed) or like nothing at all change no output
+	if ok && c.Idx%3 == 0 {
+		c01ExtraEntries(c, p, g, outs)
 	}
 	// (4) defaults and overrides are per call: one loaded model is run with the feed, then
 	// with the other set of input names (override removed / added), then with the feed again
@@ -496,4 +502,37 @@ func feedNames(f map[string]*ref.T) string {
 	}
 	sort.Strings(names)
 	return fmt.Sprint(names)
+}
+
+// c01ExtraEntries: the declared outputs are the values the nodes compute; a
+// caller tensor that happens to be named like a computed value (a declared
+// output, an intermediate) or like nothing in the graph is not an input and
+// must not shadow anything.
+func c01ExtraEntries(c *Ctx, p *program, g *mon.Graph, outs []string) {
+	feed := map[string]*ref.T{}
+	for k, v := range p.Feed {
+		feed[k] = v
+	}
+	isInput := map[string]bool{}
+	for _, in := range p.Inputs {
+		isInput[in.Name] = true
+	}
+	added := []string{}
+	for _, n := range p.Nodes {
+		for _, o := range n.G.Outputs {
+			if v := p.Values[o]; o != "" && v != nil && !isInput[o] && c.R.Chance(0.4) && len(added) < 3 {
+				feed[o] = c.R.Tensor(v.DT, v.Shape, gen.FillSmall, 50)
+				added = append(added, o)
+			}
+		}
+	}
+	feed["no_such_value"] = c.R.Tensor(ref.F32, []int{2}, gen.FillSmall, 5)
+	bytes := g.Bytes()
+	plain := mon.RunBytes(bytes, p.Feed, outs)
+	extra := mon.RunBytes(bytes, feed, outs)
+	c.Eval(2)
+	c.Count("runs-with-extra-map-entries", 1)
+	if d := diffOutcomes(plain, extra); d != "" {
+		c.Violation("program:extra-map-entry-changes-an-output", "caller map entries named %v (values the graph computes) and \"no_such_value\" were added to the feed: %s", added, d)
+	}
 }
